@@ -27,6 +27,10 @@ import (
 
 type dNamedMap map[string]any
 type dNamedStrMap map[string]string
+type dNamedBoolMap map[string]bool
+type dNamedIntMap map[string]int
+type dNamedFloatMap map[string]float64
+type dNamedAnyMapMap map[string]dNamedMap
 type dNamedStr string
 type dNamedInt int
 type dInner struct {
@@ -186,6 +190,12 @@ func dynZoo() []any {
 	}
 	out = append(out, []int64{1, math.MaxInt64}, []int32{1}, []uint8{1, 2}, []float32{1.5}, []uint64{math.MaxUint64}, map[string]int64{"age": 30}, map[string]uint{"age": 1}, map[string]float32{"age": 1.5},
 		map[string]any{"tags": []int64{1, 2}, "list": []map[string]int64{{"a": 1}}}, [3]int{1, 2, 3}, [1]string{"a"}, map[string]any{"tags": [2]string{"a", "b"}})
+	// named map types over every element kind the providers know, filled, empty and nil, alone / nested / behind pointers / in lists
+	var nilBoolMap dNamedBoolMap
+	for _, m := range []any{dNamedBoolMap{"ok": true}, dNamedBoolMap{}, nilBoolMap, dNamedIntMap{"age": 3}, dNamedIntMap{}, dNamedFloatMap{"age": 1.5}, dNamedStrMap{"name": "bob"}, dNamedStrMap{},
+		dNamedAnyMapMap{"inner": {"town": "x"}}, map[string]bool{"ok": true}, map[string]float64{}, &dNamedBoolMap{"ok": false}} {
+		out = append(out, m, map[string]any{"inner": m, "ptr": m, "list": []any{m}, "e": m}, []any{m}, &m)
+	}
 	// deep nesting
 	deep := map[string]any{"town": "x"}
 	for i := 0; i < 200; i++ {
